@@ -76,7 +76,7 @@ structure Inv (env : Env) (st : State) : Prop where
   caps : afterCaps st.stage = true → st.capturesEnd = env.captures.length ∧ st.capturesEnd ≤ st.moves.size ∧
       ∀ x, seg st.moves 0 st.capturesEnd x ↔ x ∈ env.captures
   noQuietsYet : afterCaps st.stage = true → afterQuiets st.stage = false → st.stage ≠ .badCaptures →
-      st.moves.size = st.capturesEnd ∧ st.firstQuiet = st.capturesEnd
+      st.stage ≠ .done → st.moves.size = st.capturesEnd ∧ st.firstQuiet = st.capturesEnd
   loudBad : st.stage = .badCaptures → st.onlyCaptures = true → st.moves.size = st.capturesEnd
   good : st.stage = .goodCaptures → st.firstBadCapture = none ∧ st.idx ≤ st.capturesEnd
   fbOk : ∀ fb, st.firstBadCapture = some fb → fb < st.capturesEnd
@@ -223,8 +223,8 @@ theorem inv_nb {env : Env} {limit : Nat} {st st' : State} {r} (hi : Inv env st) 
       · have := (hi.quiets (Or.inl (by rw [c]; rfl))).1
         have := (hi.quietIdx c).1
         exact nb_seg_out h 0 _ (Or.inl (by omega)) x
-    noQuietsYet := fun a b c => by
-      rw [hst] at a b c; rw [h.size, h.cend, h.fquiet]; exact hi.noQuietsYet a b c
+    noQuietsYet := fun a b c d => by
+      rw [hst] at a b c d; rw [h.size, h.cend, h.fquiet]; exact hi.noQuietsYet a b c d
     loudBad := fun a b => by
       rw [hst] at a; rw [h.loud] at b; rw [h.size, h.cend]; exact hi.loudBad a b
     good := fun a => by
@@ -281,7 +281,7 @@ theorem inv_restage {env : Env} {s1 s2 : State} (h : Inv env s1)
     (hq : s2.firstQuiet = s1.firstQuiet)
     (ac1 : afterCaps s1.stage = true) (ac2 : afterCaps s2.stage = true)
     (loudStage : s2.onlyCaptures = true → afterQuiets s2.stage = false ∧ s2.stage ≠ .genQuiets)
-    (noQ : afterQuiets s2.stage = false → s2.stage ≠ .badCaptures →
+    (noQ : afterQuiets s2.stage = false → s2.stage ≠ .badCaptures → s2.stage ≠ .done →
       s2.moves.size = s2.capturesEnd ∧ s2.firstQuiet = s2.capturesEnd)
     (loudBad : s2.stage = .badCaptures → s2.onlyCaptures = true → s2.moves.size = s2.capturesEnd)
     (good : s2.stage = .goodCaptures → s2.firstBadCapture = none ∧ s2.idx ≤ s2.capturesEnd)
@@ -299,7 +299,7 @@ theorem inv_restage {env : Env} {s1 s2 : State} (h : Inv env s1)
     loudStage := loudStage
     pre := fun c => by rw [ac2] at c; cases c
     caps := fun _ => by rw [hc, hm]; exact h.caps ac1
-    noQuietsYet := fun _ b c => noQ b c
+    noQuietsYet := fun _ b c d => noQ b c d
     loudBad := loudBad
     good := good
     fbOk := fbOk
@@ -348,7 +348,7 @@ theorem inv_prom {env : Env} {t : Move} {st st' : State} {r} (hi : Inv env st) (
       refine ⟨c1, c2, fun x => ?_⟩
       rw [← c3 x]
       exact seg_congr _ _ _ _ _ (fun k _ k2 => h.below k (by omega))
-    noQuietsYet := fun _ b c => by
+    noQuietsYet := fun _ b c _ => by
       rw [hst] at b c
       rcases hq with d | ⟨d, _⟩
       · rw [d] at b; cases b
